@@ -19,7 +19,7 @@ from vmon.libutil import monitored
 
 LEVEL = "exploration"
 SHARDS = {"quick": 16, "thorough": 16}
-MUST = ["accessor.cursor_moved_first", "accessor.order0", "accessor.order1", "accessor.order2", "create.contract_evaluations", "accessor.checks", "reframe.checks", "reframe.socket", "reframe.file-chunked", "reframe.file-short-reads", "reframe.bytes-prefixed", "reframe.twice", "reframe.beyond_20MB", "reframe.train", "reframe.train/bytesio-written", "reframe.train/file-read-size-on-packet-border", "reframe.train/socket-two-packets-per-delivery", "reframe.train/cut-in-last-packet", "reframe.train/socket-two-packets-per-delivery/show_progress", "reject.checks", "word1.values", "word2.values"]
+MUST = ["accessor.cursor_moved_first", "accessor.order0", "accessor.order1", "accessor.order2", "create.contract_evaluations", "accessor.checks", "reframe.checks", "reframe.socket", "reframe.file-chunked", "reframe.file-short-reads", "reframe.bytes-prefixed", "reframe.twice", "reframe.beyond_20MB", "reframe.train", "reframe.train/bytesio-written", "reframe.train/file-read-size-on-packet-border", "reframe.train/socket-two-packets-per-delivery", "reframe.train/cut-in-last-packet", "reframe.train/two-generators-requested-up-front", "reframe.train/equal-prefixed-records", "reframe.train/socket-two-packets-per-delivery/show_progress", "reject.checks", "word1.values", "word2.values"]
 RULE = ("create_ccsds_packet is called on enumerated field values; a postcondition compares the bytes with the "
         "model's bit-string layout (3+1+1+11+2+14+16 bits, length field = len(data)-1) and the harness compares "
         "every accessor, re-frames the packet through ccsds_generator (bytes, BytesIO, and in rotation: chunked file reads, short reads, a "
@@ -163,14 +163,39 @@ def check_packet(ctx, vals, data, reframe=True):
             import contextlib
             train = [prev, raw, prev]
             tb = b"".join(train)
-            mode = n % 6
+            mode = n % 8
             passes = 1
             kw = {}
+            if mode in (6, 7):
+                import contextlib
+                with contextlib.redirect_stdout(io.StringIO()):
+                    if mode == 6:
+                        # two generators requested up front over the same file object, consumed one after the other
+                        src = io.BytesIO(tb)
+                        g1, g2 = packets.ccsds_generator(src), packets.ccsds_generator(src)
+                        outs = [[bytes(x) for x in itertools.islice(g, 5)] for g in (g1, g2)]
+                        kind = "train/two-generators-requested-up-front"
+                        good = outs == [train, train]
+                        detail = f"{[len(o) for o in outs]} packets from the two generators"
+                    else:
+                        # N equal records (prefix + packet) from a source of known length: every count and prefix length
+                        N, k2 = 2 + (n // 8) % 7, (1, 4, 7, 8, len(raw))[(n // 56) % 5]
+                        recs = (bytes([0xEE]) * k2 + raw) * N
+                        src = recs if (n // 8) % 2 else io.BytesIO(recs)
+                        got = [bytes(x) for x in itertools.islice(packets.ccsds_generator(src, skip_header_bytes=k2), N + 2)]
+                        kind = "train/equal-prefixed-records"
+                        good = got == [raw] * N
+                        detail = f"{len(got)} packets from {N} records of {k2}+{len(raw)} bytes"
+                ctx.count("reframe.train")
+                ctx.count(f"reframe.{kind}")
+                if not good:
+                    ctx.violation(f"reframe/{kind}", f"re-framing gave {detail}", dict(wit, source=kind))
+                return p
             if mode == 5:
                 # the stream ends part-way through the last packet (its header complete): whatever the framer yields must still be a
                 # packet whose accessors agree with its own first six bytes - i.e. only the complete ones
                 cutlen = len(tb) - rr.randrange(1, max(2, len(prev) - 6))
-                src_kind = (n // 6) % 3
+                src_kind = (n // 8) % 3
                 out = []
                 with contextlib.redirect_stdout(io.StringIO()):
                     src = tb[:cutlen] if src_kind == 0 else io.BytesIO(tb[:cutlen]) if src_kind == 1 else \
@@ -198,10 +223,10 @@ def check_packet(ctx, vals, data, reframe=True):
                 kind, passes = "train/bytesio-written", 2     # ... and the same object is framed a second time
             elif mode == 1:
                 src = sources_mod.RecordingFile(tb, "full")
-                kind, kw = "train/file-read-size-on-packet-border", {"buffer_read_size_bytes": len(prev) if (n // 6) % 2 else len(prev) + len(raw)}
+                kind, kw = "train/file-read-size-on-packet-border", {"buffer_read_size_bytes": len(prev) if (n // 8) % 2 else len(prev) + len(raw)}
             elif mode == 2:
                 src = sources_mod.ScriptedSocket([prev + raw, prev], closed_by_peer=True)     # one delivery holds two whole packets
-                kind, kw = "train/socket-two-packets-per-delivery", {"show_progress": bool((n // 6) % 2)}
+                kind, kw = "train/socket-two-packets-per-delivery", {"show_progress": bool((n // 8) % 2)}
             elif mode == 3:
                 src, kind, kw = tb, "train/bytes", {"show_progress": True}
             else:
